@@ -185,3 +185,33 @@ pub proof fn lemma_write_path_is_load_then_write(root: Value, path: Seq<String>,
     lemma_follow_vs_walk(root, path, 0, n);
     lemma_follow_from(root, path, 0, n);
 }
+
+// what a registered filter / test returns for (value, kwargs, state): uninterpreted
+pub uninterp spec fn filter_result(f: &StoredFilter, v: Value, k: Value, st: State) -> Result<Value, ()>;
+pub uninterp spec fn test_result(f: &StoredTest, v: Value, k: Value, st: State) -> Result<bool, ()>;
+pub uninterp spec fn kw_of(k: &Kwargs) -> Value;
+impl StoredFilter {
+    #[verifier::external_body]
+    pub fn call(&self, value: &Value, kwargs: Kwargs, state: &State) -> (r: TeraResult<Value>)
+        ensures r is Ok == filter_result(self, *value, kw_of(&kwargs), *state) is Ok,
+                r is Ok ==> r->Ok_0 == filter_result(self, *value, kw_of(&kwargs), *state)->Ok_0
+    { unimplemented!() }
+}
+impl StoredTest {
+    #[verifier::external_body]
+    pub fn call(&self, value: &Value, kwargs: Kwargs, state: &State) -> (r: TeraResult<bool>)
+        ensures r is Ok == test_result(self, *value, kw_of(&kwargs), *state) is Ok,
+                r is Ok ==> r->Ok_0 == test_result(self, *value, kw_of(&kwargs), *state)->Ok_0
+    { unimplemented!() }
+}
+/// `&self.tera.filters[name]` / `&self.tera.tests[name]`: the name was validated when the templates
+/// were added (C07's undecided part): presence assumed, not proved
+pub uninterp spec fn filter_named(t: &Tera, name: Seq<char>) -> StoredFilter;
+pub uninterp spec fn test_named(t: &Tera, name: Seq<char>) -> StoredTest;
+#[verifier::external_body]
+pub fn vx_lookup_filter<'a>(t: &'a Tera, name: &str) -> (r: &'a StoredFilter) ensures *r == filter_named(t, name@) { unimplemented!() }
+#[verifier::external_body]
+pub fn vx_lookup_test<'a>(t: &'a Tera, name: &str) -> (r: &'a StoredTest) ensures *r == test_named(t, name@) { unimplemented!() }
+/// `Kwargs::new(kwargs.into_map_arc().unwrap())`: the compiler always builds the kwargs map (assumed)
+#[verifier::external_body]
+pub fn vx_kwargs_of(k: Value) -> (r: Kwargs) ensures kw_of(&r) == k { unimplemented!() }
